@@ -59,6 +59,8 @@ def smt_str(s):
 
 
 class Path:
+    usesD = False
+
     def __init__(self):
         self.conds = []
         self.strs = {}      # local -> smt string expr
@@ -67,6 +69,12 @@ class Path:
         self.lens = {}      # local -> smt int expr
         self.ops = []
         self.fresh = []
+        self.mutrefs = set()
+        self.ints = {}
+        self.opts = {}
+        self.ranges = {}
+        self.bools = {}
+        self.disc = {}
 
     def clone(self):
         p = Path()
@@ -77,6 +85,12 @@ class Path:
         p.lens = dict(self.lens)
         p.ops = list(self.ops)
         p.fresh = list(self.fresh)
+        p.mutrefs = set(self.mutrefs)
+        p.ints = dict(self.ints)
+        p.opts = dict(self.opts)
+        p.ranges = dict(self.ranges)
+        p.bools = dict(self.bools)
+        p.disc = dict(self.disc)
         return p
 
 
@@ -120,12 +134,14 @@ def split_args(s):
 
 
 PREFIX = ['']
+SKIPPED = []
 
 
 def explore(blocks):
     """-> (bad paths [(conds, description, ops)], safe path count, unknown calls)"""
     bad, unknown = [], []
     safe = [0]
+    skipped = SKIPPED
 
     def target_str(p, a):
         l = arg_local(a)
@@ -147,11 +163,48 @@ def explore(blocks):
             if m:
                 p.consts[m.group(1)] = unescape(m.group(2))
                 continue
-            m = re.match(r'(_\d+) = &(?:mut )?(_\d+);$', line)
+            m = re.match(r'(_\d+) = &(mut )?(_\d+);$', line)
             if m:
-                p.refs[m.group(1)] = m.group(2)
+                p.refs[m.group(1)] = m.group(3)
+                if m.group(2):
+                    p.mutrefs.add(m.group(1))
+                continue
+            m = re.match(r'(_\d+) = discriminant\(\(\*_1\)\);$', line)
+            if m:
+                p.lens[m.group(1)] = 'D'      # variant index of the `Meta` argument: 0 Path, 1 List, 2 NameValue (tied to S in the environment)
+                p.usesD = True
+                continue
+            m = re.match(r'(_\d+) = Add\((?:move|copy) (_\d+), const (\d+)_usize\);$', line)
+            if m and m.group(2) in p.ints:
+                p.ints[m.group(1)] = f'(+ {p.ints[m.group(2)]} {m.group(3)})'
+                continue
+            m = re.match(r'(_\d+) = Sub\((?:move|copy) (_\d+), const (\d+)_usize\);$', line)
+            if m and m.group(2) in p.ints:
+                bad.append((list(p.conds) + [f'(< {p.ints[m.group(2)]} {m.group(3)})'], f'{bb}: usize subtraction below zero', list(p.ops), list(p.fresh)))
+                p.conds.append(f'(>= {p.ints[m.group(2)]} {m.group(3)})')
+                p.ints[m.group(1)] = f'(- {p.ints[m.group(2)]} {m.group(3)})'
+                continue
+            m = re.match(r'(_\d+) = (?:std|core)::ops::RangeFrom::<usize> \{ start: (?:move|copy) (_\d+) \};$', line)
+            if m and m.group(2) in p.ints:
+                p.ranges[m.group(1)] = ('from', p.ints[m.group(2)])
+                continue
+            m = re.match(r'(_\d+) = (?:std|core)::ops::RangeTo::<usize> \{ end: (?:move|copy) (_\d+) \};$', line)
+            if m and m.group(2) in p.ints:
+                p.ranges[m.group(1)] = ('to', p.ints[m.group(2)])
                 continue
             m = re.match(r'switchInt\((?:copy|move) (_\d+)\) -> \[(.*)\];$', line)
+            if m and m.group(1) in p.bools:
+                bexp = p.bools[m.group(1)]
+                arms = dict(x.strip().split(': ') for x in m.group(2).split(','))
+                q = p.clone(); q.conds.append(f'(not {bexp})'); run(arms.get('0'), q, seen)
+                q = p.clone(); q.conds.append(bexp); run(arms.get('otherwise'), q, seen)
+                return
+            if m and m.group(1) in p.opts:
+                idx = p.opts[m.group(1)]
+                arms = dict(x.strip().split(': ') for x in m.group(2).split(','))
+                q = p.clone(); q.conds.append(f'(< {idx} 0)'); run(arms.get('0'), q, seen)
+                q = p.clone(); q.conds.append(f'(>= {idx} 0)'); run(arms.get('1', arms.get('otherwise')), q, seen)
+                return
             if m:
                 v = p.lens.get(m.group(1))
                 arms = [x.strip() for x in m.group(2).split(',')]
@@ -234,10 +287,71 @@ def explore(blocks):
                         return
                     p.strs[src] = f'(str.++ {p.strs[src]} {smt_str(lit)})'
                     p.ops.append(f'push_str {lit!r}')
+                elif re.search(r'impl str>::find::<(char|&str)>$', callee):
+                    src = target_str(p, args[0])
+                    cm = re.match(r"const '(.*)'$", args[1].strip())
+                    pat = cm.group(1) if cm else arg_const_str(args[1], p)
+                    if src not in p.strs or pat is None:
+                        unknown.append(f'{bb}: find with non-constant pattern')
+                        return
+                    p.opts[dst] = f'(str.indexof {p.strs[src]} {smt_str(unescape(pat))} 0)'
+                    p.ops.append(f'find {pat!r}')
+                elif re.search(r'Option::<usize>::(unwrap|expect)$', callee):
+                    o = arg_local(args[0])
+                    if o not in p.opts:
+                        unknown.append(f'{bb}: unwrap of an untracked Option')
+                        return
+                    bad.append((list(p.conds) + [f'(< {p.opts[o]} 0)'], f'{bb}: {callee.split("::")[-1]}() on None (pattern not found)', list(p.ops), list(p.fresh)))
+                    p.conds.append(f'(>= {p.opts[o]} 0)')
+                    p.ints[dst] = p.opts[o]
+                elif re.search(r'Index<(std|core)::ops::Range(From|To)<usize>>>::index$', callee):
+                    src = target_str(p, args[0])
+                    rl = arg_local(args[1])
+                    if src not in p.strs or rl not in p.ranges:
+                        unknown.append(f'{bb}: string slicing with an untracked range')
+                        return
+                    kind, iv = p.ranges[rl]
+                    se = p.strs[src]
+                    bad.append((list(p.conds) + [f'(or (< {iv} 0) (> {iv} (str.len {se})))'], f'{bb}: string slice index beyond the end', list(p.ops), list(p.fresh)))
+                    p.conds.append(f'(and (>= {iv} 0) (<= {iv} (str.len {se})))')
+                    p.strs[dst] = f'(str.substr {se} {iv} (- (str.len {se}) {iv}))' if kind == 'from' else f'(str.substr {se} 0 {iv})'
+                    p.refs.pop(dst, None)
+                elif re.search(r'impl str>::trim(_start|_end)?$', callee):
+                    src = target_str(p, args[0])
+                    if src not in p.strs:
+                        unknown.append(f'{bb}: trim of an untracked string')
+                        return
+                    r = f'R{len(p.fresh)}'
+                    p.fresh.append(r)
+                    se = p.strs[src]
+                    p.conds.append(f'(str.contains {se} {r})')
+                    p.conds.append(f'(not (str.prefixof " " {r}))' if not callee.endswith('trim_end') else f'(not (str.suffixof " " {r}))')
+                    p.conds.append(f'(=> (not (str.contains {se} " ")) (= {r} {se}))')
+                    p.strs[dst] = r
+                    p.ops.append('trim (over-approximated)')
+                elif re.search(r'impl str>::(starts_with|ends_with)::<(char|&str)>$', callee):
+                    src = target_str(p, args[0])
+                    cm = re.match(r"const '(.*)'$", args[1].strip())
+                    pat = cm.group(1) if cm else arg_const_str(args[1], p)
+                    if src not in p.strs or pat is None:
+                        unknown.append(f'{bb}: starts_with with non-constant pattern')
+                        return
+                    fn_ = 'str.prefixof' if 'starts_with' in callee else 'str.suffixof'
+                    p.bools[dst] = f'({fn_} {smt_str(unescape(pat))} {p.strs[src]})'
                 elif callee.endswith('String::insert_str') or callee.endswith('String::insert'):
                     src = target_str(p, args[0])
                     im = re.match(r'const (\d+)_usize', args[1].strip())
                     lit = arg_const_str(args[2], p)
+                    il = arg_local(args[1])
+                    if src in p.strs and not im and il in p.ints and lit is not None:
+                        iv = p.ints[il]
+                        se = p.strs[src]
+                        bad.append((list(p.conds) + [f'(or (< {iv} 0) (> {iv} (str.len {se})))'], f'{bb}: String::insert_str(<computed index>, {lit!r}) beyond the end of the string', list(p.ops), list(p.fresh)))
+                        p.conds.append(f'(and (>= {iv} 0) (<= {iv} (str.len {se})))')
+                        p.strs[src] = f'(str.++ (str.substr {se} 0 {iv}) {smt_str(lit)} (str.substr {se} {iv} (- (str.len {se}) {iv})))'
+                        p.ops.append(f'insert_str <computed> {lit!r}')
+                        run(ret, p, seen)
+                        return
                     if src not in p.strs or not im or lit is None:
                         unknown.append(f'{bb}: insert_str with non-constant arguments')
                         return
@@ -248,14 +362,27 @@ def explore(blocks):
                     p.conds.append(f'(<= {idx} (str.len {s}))')
                     p.strs[src] = f'(str.++ (str.substr {s} 0 {idx}) {smt_str(lit)} (str.substr {s} {idx} (- (str.len {s}) {idx})))'
                     p.ops.append(f'insert_str {idx} {lit!r}')
-                elif re.search(r'String::(remove|truncate|replace_range|split_off|drain)|str>::(split_at|get_unchecked)|\[.*\]::index|Index', callee):
+                elif re.search(r'String::(remove|truncate|replace_range|split_off|drain)|str>::(split_at|get_unchecked)|\[.*\]::index|Index|Option::<.*>::(unwrap|expect)|Result::<.*>::(unwrap|expect)', callee):
                     unknown.append(f'{bb}: string operation not modelled: {callee}')
                     return
                 elif any(re.search(x, callee) for x in SKIP_CALLS):
                     pass
                 else:
-                    unknown.append(f'{bb}: call not in the whitelist: {callee}')
-                    return
+                    # a call outside the whitelist matters only if it can change a tracked string (receives it by &mut or by value)
+                    touches = False
+                    for a in args:
+                        l = arg_local(a)
+                        if l is None:
+                            continue
+                        tgt = l
+                        while tgt in p.refs:
+                            tgt = p.refs[tgt]
+                        if tgt in p.strs and (l in p.mutrefs or (l == tgt and a.strip().startswith('move'))):
+                            touches = True
+                    if touches:
+                        unknown.append(f'{bb}: call not in the whitelist receives the tracked string mutably: {callee}')
+                        return
+                    skipped.append(callee)
                 run(ret, p, seen)
                 return
             # anything else: aggregate / copy statements that do not touch the string
@@ -279,10 +406,18 @@ def environment(trait):
             for sp in ('', ' '):
                 for isp in ('', ' '):
                     alts.append(smt_str(trait + sp + o + isp + c))
-        return '(or ' + ' '.join(f'(= S {a})' for a in alts) + ')'
-    # Debug: the trait name followed by bounded printable-ASCII argument text that does not start with "unsafe"
-    return (f'(and (str.prefixof {t} S) (<= (str.len S) 48) (str.in_re S (re.* (re.range " " "~")))'
-            f' (not (str.prefixof "{trait}(unsafe" S)) (not (str.prefixof "{trait} (unsafe" S)))')
+        return '(and (>= D 0) (<= D 2) (=> (= D 0) (= S ' + t + ')) (or ' + ' '.join(f'(= S {a})' for a in alts) + '))'
+    # Debug: the three printed forms of a syn::Meta without the `unsafe` marker, tied to its variant index D
+    #   Path:       Debug                         (D = 0)
+    #   List:       Debug(<params>) in (), [] or {} with optional space before the delimiter (D = 1)
+    #   NameValue:  Debug = <identifier or string literal>   (D = 2)
+    inner = '(re.* (re.union (re.range "a" "z") (re.range "A" "Z") (re.range "0" "9") (str.to_re "_") (str.to_re " ") (str.to_re "=") (str.to_re ",") (str.to_re "(") (str.to_re ")") (str.to_re "\\u{22}")))'
+    ident = '(re.++ (re.union (re.range "a" "z") (re.range "A" "Z")) (re.* (re.union (re.range "a" "z") (re.range "A" "Z") (re.range "0" "9") (str.to_re "_"))))'
+    lst = ' '.join(f'(re.++ (str.to_re {t}) (re.opt (str.to_re " ")) (str.to_re "{o}") {inner} (str.to_re "{c}"))' for o, c in (('(', ')'), ('[', ']'), ('{', '}')))
+    return (f'(and (<= (str.len S) 48) (>= D 0) (<= D 2)'
+            f' (=> (= D 0) (= S {t}))'
+            f' (=> (= D 1) (and (str.in_re S (re.union {lst})) (not (str.prefixof "{trait}(unsafe" S)) (not (str.prefixof "{trait} (unsafe" S))))'
+            f' (=> (= D 2) (str.in_re S (re.++ (str.to_re {t}) (str.to_re " = ") {ident}))))')
 
 
 def ask(solver, smt, timeout=120):
@@ -349,7 +484,7 @@ def main(tier, seed, keep=False):
         env = environment(trait)
         for conds, desc, ops, fresh in bad:
             obligations += 1
-            base = ('(set-logic ALL)\n(set-option :produce-models true)\n(declare-const S String)\n' + ''.join(f'(declare-const {r} String)\n' for r in fresh)
+            base = ('(set-logic ALL)\n(set-option :produce-models true)\n(declare-const S String)\n(declare-const D Int)\n' + ''.join(f'(declare-const {r} String)\n' for r in fresh)
                     + f'(assert {env})\n' + ''.join(f'(assert {c})\n' for c in conds))
             models = []
             verdicts = {}
